@@ -1054,6 +1054,16 @@ def pystr_check(verif=None, timeout=120, keep=False):
             shutil.rmtree(d, ignore_errors=True)
 
 
+def obligations(pid, repo=None, verif=None, timeout=120):
+    """what a harness module's extra_obligations(tier) returns: the translation obligation of <pid> and the PyStr comparison,
+    run side by side"""
+    from concurrent.futures import ThreadPoolExecutor
+    with ThreadPoolExecutor(2) as ex:
+        a = ex.submit(check_target, pid, repo, verif, timeout)
+        b = ex.submit(pystr_check, verif, timeout)
+        return list(a.result()) + list(b.result())
+
+
 def main():
     ap = argparse.ArgumentParser()
     ap.add_argument("--repo", default=os.environ.get("BAIZE_REPO", "/repo"))
